@@ -209,6 +209,26 @@ func (k c03) Run(c *rt.Ctx) {
 			stmt.HasLim, stmt.Start, stmt.Count = true, r.Intn(3), r.Range(1, 9)
 		}
 		query = stmt.Text(gen.Plain)
+	} else if c.Case%24 == 13 {
+		// wave 15 (C03-ab): float values with a fraction compared with an INTEGER literal - the
+		// comparison is made in floating point in both modes (1.5 > 1)
+		c.Rec.Inc("fractional_floats_against_integer_literals")
+		vals := []string{"0.5", "1.5", "1.0", "2.25", "3", "-0.5", "1.75", "2.5", "0.25", "-1.5", "2", "1"}
+		var ps []refstore.Pair
+		for i, n := 0, r.Range(4, 40); i < n; i++ {
+			ps = append(ps, refstore.Pair{K: fmt.Sprintf("k%02d", i), V: vals[r.Intn(len(vals))]})
+		}
+		st = &gen.Store{Family: "fractions", Pairs: refstore.New(ps).Pairs()}
+		k0, v0 := gen.Key(), gen.Value()
+		op := []string{">", ">=", "<", "<="}[(c.Case/24)%4]
+		lit := gen.Int(int64((c.Case/96)%3) + 1)
+		fdef := gen.Call("float", v0)
+		if (c.Case/288)%2 == 0 {
+			stmt = &gen.Stmt{Kind: "select", Where: gen.Bin(op, gen.Ref("f", fdef), lit), Fields: []gen.Field{{E: k0}, {E: fdef, Alias: "f"}}}
+		} else {
+			stmt = &gen.Stmt{Kind: "select", Where: gen.Bin("^=", k0, gen.Str("k")), Fields: []gen.Field{{E: k0}, {E: gen.Bin(op, gen.Bin("/", gen.Call("float", v0), gen.Float("2.0")), lit), Alias: "b"}, {E: gen.Bin(op, fdef, lit), Alias: "small"}}}
+		}
+		query = stmt.Text(gen.Plain)
 	} else if c.Case%24 == 23 {
 		// wave 15 (C03-aa): a GROUP BY field used by name beside the aggregate call, with groups whose
 		// named value differs and several groups per batch - each group's row is computed from that
